@@ -1,7 +1,6 @@
 //! C05 — the lock-free bucket never loses, duplicates or invents a sample (E1).
 use metrics_util::storage::AtomicBucket;
 use std::sync::atomic::{AtomicUsize, Ordering};
-use std::sync::Arc;
 use vcore::driver::{self, CheckDef, Ctx, PartResult, PartSpec};
 use vcore::json;
 use vcore::vsched::{self, body, fail, Body, Cfg, Log, Scenario, Verdict};
@@ -215,19 +214,32 @@ fn mk(name: &str, prefill: usize, bodies: Vec<Body<S>>) -> Scenario<S> {
     }
 }
 
-// ---- S4: payload with a destructor
+// ---- S4: payload with a destructor. Plain data only (no pointers), so that a destructor run on memory that never
+// held a pushed value (all zeroes, or stale) is counted instead of crashing the harness.
+const D_MAGIC: u64 = 0xD0D0_5EED_D0D0_5EED;
+const D_MAX: usize = 8 + 64;
+static D_DROPS: [AtomicUsize; D_MAX] = [const { AtomicUsize::new(0) }; D_MAX];
+static D_FABRICATED: AtomicUsize = AtomicUsize::new(0);
 struct D {
     id: u64,
-    drops: Arc<Vec<AtomicUsize>>,
+    magic: u64,
+}
+impl D {
+    fn new(id: u64) -> D {
+        D { id, magic: D_MAGIC }
+    }
 }
 impl Drop for D {
     fn drop(&mut self) {
-        self.drops[self.id as usize].fetch_add(1, Ordering::SeqCst);
+        if self.magic != D_MAGIC || self.id as usize >= D_MAX {
+            D_FABRICATED.fetch_add(1, Ordering::SeqCst);
+        } else {
+            D_DROPS[self.id as usize].fetch_add(1, Ordering::SeqCst);
+        }
     }
 }
 struct S4 {
     b: AtomicBucket<D>,
-    drops: Arc<Vec<AtomicUsize>>,
     delivered: Log<(u64, usize)>, // (id, drop count at delivery)
 }
 
@@ -236,7 +248,7 @@ fn s4_scenario(prefill: usize) -> Scenario<S4> {
     let pusher = |ids: [u64; 2]| -> Body<S4> {
         body(move |s: &S4| {
             for id in ids {
-                s.b.push(D { id, drops: s.drops.clone() });
+                s.b.push(D::new(id));
             }
         })
     };
@@ -244,7 +256,7 @@ fn s4_scenario(prefill: usize) -> Scenario<S4> {
         for _ in 0..2 {
             s.b.clear_with(|xs| {
                 for d in xs {
-                    s.delivered.push((d.id, s.drops[d.id as usize].load(Ordering::SeqCst)));
+                    s.delivered.push((d.id, D_DROPS[(d.id as usize).min(D_MAX - 1)].load(Ordering::SeqCst)));
                 }
             });
         }
@@ -252,10 +264,13 @@ fn s4_scenario(prefill: usize) -> Scenario<S4> {
     Scenario {
         name: format!("S4-dtor-prefill{}", prefill),
         setup: Box::new(move || {
-            let drops: Arc<Vec<AtomicUsize>> = Arc::new((0..n).map(|_| AtomicUsize::new(0)).collect());
-            let s = S4 { b: AtomicBucket::new(), drops: drops.clone(), delivered: Log::new() };
+            for d in D_DROPS.iter() {
+                d.store(0, Ordering::SeqCst);
+            }
+            D_FABRICATED.store(0, Ordering::SeqCst);
+            let s = S4 { b: AtomicBucket::new(), delivered: Log::new() };
             for i in 0..prefill {
-                s.b.push(D { id: 8 + i as u64, drops: drops.clone() });
+                s.b.push(D::new(8 + i as u64));
             }
             s
         }),
@@ -263,7 +278,7 @@ fn s4_scenario(prefill: usize) -> Scenario<S4> {
         check: Box::new(move |s, _| {
             s.b.clear_with(|xs| {
                 for d in xs {
-                    s.delivered.push((d.id, s.drops[d.id as usize].load(Ordering::SeqCst)));
+                    s.delivered.push((d.id, D_DROPS[(d.id as usize).min(D_MAX - 1)].load(Ordering::SeqCst)));
                 }
             });
             let del = s.delivered.get();
@@ -281,7 +296,15 @@ fn s4_scenario(prefill: usize) -> Scenario<S4> {
                     return fail("lost-value", format!("value {} never delivered", id));
                 }
             }
-            for (i, d) in s.drops.iter().enumerate() {
+            // every model thread has finished: run what the clears deferred, then look at the destructors
+            for _ in 0..64 {
+                crossbeam_epoch::pin().flush();
+            }
+            let fab = D_FABRICATED.load(Ordering::SeqCst);
+            if fab != 0 {
+                return fail("destructor-run-on-value-never-pushed", format!("{} destructor run(s) on slots that never held a pushed value (unwritten or stale memory treated as a value)", fab));
+            }
+            for (i, d) in D_DROPS.iter().enumerate().take(n) {
                 if d.load(Ordering::SeqCst) > 1 {
                     return fail("destructor-twice", format!("destructor of value {} ran {} times", i, d.load(Ordering::SeqCst)));
                 }
